@@ -251,7 +251,7 @@ def replay_real(ctx, table, real):
         index[cid] = (x, r)
         # prefixes of the real file: all of the small ones, a stride through the big ones
         n = len(x["bytes"])
-        stride = 1 if n <= 700 else max(1, n // (150 if ctx.tier == "quick" else 1500))
+        stride = 1 if n <= 2500 else max(1, n // (150 if ctx.tier == "quick" else 1500))
         for cut in list(range(0, n, stride)) + [n - 1, n - 2]:
             if 0 <= cut < n:
                 pc = "cut-%s-%d" % (x["name"], cut)
